@@ -66,6 +66,9 @@ def _job(args):
     if variant == "map":
         how = {p: ("open" if k == "iter" else k) for p, k in how.items()}     # a map file has no iteration
     scripts = ITER_SCRIPTS[sname] if "iter" in how.values() else SCRIPTS[sname]
+    prereads = []
+    if len(args) > 6:                      # randomised job: explicit wanted lines and reads done by the parent before forking
+        scripts, prereads = {int(k): v for k, v in args[6]["scripts"].items()}, args[6]["prereads"]
     state = {}
 
     def make():
@@ -80,6 +83,11 @@ def _job(args):
                 cls = NoReopen
             obj = cls(path)
         obj.open()
+        for k in prereads:
+            if variant == "map":
+                obj["k%d" % k]
+            else:
+                obj[k]
         if how.get(0) == "preread":
             # the parent uses the file before forking: the line just before the one child 1 will ask for first
             k = scripts[1][0] - 1
@@ -149,6 +157,17 @@ def run(ctx):
         for variant in ("buffered", "mmap", "map"):
             jobs += [(variant, "S3a", s, d, False, style) for s in s3a]
             jobs += [(variant, "S3b", s, d, False, style) for s in rnd.sample(s3b, 60 if quick else 2000)]
+    # randomised uses: wanted lines (often adjacent ones) and reads the parent does before forking, on TLC's schedules
+    shapes = {"S3a": (s3a, 1), "S3b": (s3b, 2)}
+    for _ in range(300 if quick else 6000):
+        sname = rnd.choice(["S3a", "S3b", "S3b"])
+        scheds, n = shapes[sname]
+        base = rnd.randint(1, 8)
+        pick = lambda: min(11, max(0, base + rnd.choice([-1, 0, 1, 1, 2, rnd.randint(-5, 5)])))
+        scripts = {str(p): [pick() for _ in range(n)] for p in (0, 1, 2)}
+        spec = {"scripts": scripts, "prereads": [min(11, max(0, base + rnd.choice([-1, 0, 1]))) for _ in range(rnd.randint(0, 2))]}
+        jobs.append((rnd.choice(["buffered", "buffered", "map", "mmap"]), sname, rnd.choice(scheds), d, False,
+                     rnd.choice(["index", "index", "open2"]), spec))
     negjobs = [("buffered", "S3a", s, d, True) for s in s3a]
     try:
         with ProcessPoolExecutor(max_workers=16) as ex:
